@@ -58,6 +58,7 @@ type Run struct {
 	Out    string
 	Scale  int    // multiplier for case counts (search mode uses >1)
 	Replay string // path of a replay file to re-run, if any
+	Repo   string // source tree the binary was built from (translators read it)
 }
 
 func ParseArgs() *Run {
@@ -67,6 +68,7 @@ func ParseArgs() *Run {
 	flag.StringVar(&r.Out, "out", ".", "output directory")
 	flag.IntVar(&r.Scale, "scale", 1, "case count multiplier")
 	flag.StringVar(&r.Replay, "replay", "", "replay file")
+	flag.StringVar(&r.Repo, "repo", "/repo", "source tree (for translators)")
 	flag.Parse()
 	if err := os.MkdirAll(r.Out, 0o755); err != nil {
 		panic(err)
